@@ -302,8 +302,8 @@ def case_rod(dim, dtype, n_elems):
 
 
 MISMATCHES = ["missing-eul-scalar", "missing-eul-vector", "missing-lag-scalar", "missing-lag-vector", "missing-grid", "missing-grid-no-fields",
-              "origin-shift", "origin-shift-first-axis", "origin-shift-last-axis", "origin-shift-small", "dx-x2", "dx-x1.001", "grid+1", "grid+1-first-axis", "grid-slab-first-axis", "grid-slab-last-axis", "eul-scalar-vs-file-without-eulerian"]
-EULERIAN_MISMATCHES = ["missing-eul-scalar", "missing-eul-vector", "origin-shift", "origin-shift-first-axis", "origin-shift-last-axis", "origin-shift-small", "dx-x2", "dx-x1.001", "grid+1", "grid+1-first-axis", "grid-slab-first-axis", "grid-slab-last-axis"]
+              "origin-shift", "origin-shift-first-axis", "origin-shift-last-axis", "origin-shift-small", "origin-shift-negative", "origin-shift-small-negative", "dx-x2", "dx-x1.001", "dx-x0.5", "dx-x0.999", "grid+1", "grid-1", "grid+1-first-axis", "grid-slab-first-axis", "grid-slab-last-axis", "eul-scalar-vs-file-without-eulerian"]
+EULERIAN_MISMATCHES = ["missing-eul-scalar", "missing-eul-vector", "origin-shift", "origin-shift-first-axis", "origin-shift-last-axis", "origin-shift-small", "origin-shift-negative", "origin-shift-small-negative", "dx-x2", "dx-x1.001", "dx-x0.5", "dx-x0.999", "grid+1", "grid-1", "grid+1-first-axis", "grid-slab-first-axis", "grid-slab-last-axis"]
 ORIGINS = {"default": None, "per-axis": [0.125, -0.75, 2.5]}  # coordinate of the first cell centre per array axis
 
 
@@ -339,6 +339,17 @@ def case_mismatch(dim, dtype, kind, cls="IO", load_cls=None, origins="default"):
         load_spec["origin_shift"] = [0.0] * (dim - 1) + [0.25e-3]
     elif kind == "dx-x1.001":
         load_spec["dx_scale"] = 1.001
+    # the same deviations with the OTHER sign (registered value below the file's): a comparison must be two-sided
+    elif kind == "origin-shift-negative":
+        load_spec["origin_shift"] = [-0.125] * dim
+    elif kind == "origin-shift-small-negative":
+        load_spec["origin_shift"] = [-0.25e-3] + [0.0] * (dim - 1)
+    elif kind == "dx-x0.5":
+        load_spec["dx_scale"] = 0.5
+    elif kind == "dx-x0.999":
+        load_spec["dx_scale"] = 0.999
+    elif kind == "grid-1":
+        load_spec["grid_delta"] = [0] * (dim - 1) + [-1]
     elif kind in ("grid-slab-first-axis", "grid-slab-last-axis"):
         # the FILE holds a one-cell-thick slab (an axis of length 1) of the registered grid: NumPy would broadcast it
         gsz = (5, 6) if dim == 2 else (3, 4, 5)
